@@ -62,7 +62,7 @@ PushWithExpand(v) ==
                        ELSE [ok |-> FALSE, b |-> buf, h |-> head, t |-> tail, c |-> cap]
         p == PushOn(r.b, r.h, r.t, r.c, v)
     IN /\ buf' = p.b /\ head' = p.h /\ tail' = p.t /\ cap' = r.c
-       /\ last' = R("PushWithExpand", <<v>>, <<>>)
+       /\ last' = R("PushWithExpand", <<v>>, <<r.c>>)
 
 Query == /\ last' = R("Query", <<>>, <<LenI, IsEmpty, IsFull, cap>>)
          /\ UNCHANGED <<buf, head, tail, cap>>
